@@ -166,10 +166,13 @@ class render_enum:
     def requires_checked(model):
         return model.name is not None and model.schema is not None and items_named(model)
 
+    def returns(model):
+        return rendered_sql(model)
+
     def ensures_ddl(model, result):
         return result == ((sql_comment(model.comment) if model.comment else '')
                           + 'CREATE TYPE ' + sql_name(model) + ' AS ENUM (\n'
-                          + '\n'.join(indent(sql_enum_item(i), '  ') for i in model.items).rstrip(',')
+                          + '\n'.join(indent(rendered_sql(i), '  ') for i in model.items).rstrip(',')
                           + '\n);')
 
 
@@ -599,7 +602,7 @@ class render_column_notes:
         return model.name is not None and model.schema is not None and columns_ok(model)
 
     def returns(model):
-        return sql_column_notes(model)
+        return the_column_comments(model)
 
     def ensures_comments(model, result):
         return result == sql_column_notes(model)
@@ -624,7 +627,10 @@ def renderable(m):
     return ((not isinstance(m, Column) or (m.name is not None and m.type is not None and
                                             (not isinstance(m.type, Enum) or (m.type.name is not None and m.type.schema is not None))))
             and (not isinstance(m, Index) or (m.table is not None and subjects_ok(m) and m.table.name is not None and m.table.schema is not None))
-            and (not isinstance(m, Reference) or ref_renderable(m)))
+            and (not isinstance(m, Reference) or ref_renderable(m))
+            and (not isinstance(m, Note) or not isinstance(m.parent, Table)
+                 or (m.parent.name is not None and m.parent.schema is not None and m.parent.note is m))
+            and (not isinstance(m, Note) or not isinstance(m.parent, Column) or m.parent.name is not None))
 
 
 @contract('pydbml.renderer.sql.default.renderer:DefaultSQLRenderer.render')
@@ -633,7 +639,7 @@ class sql_render:
     AttributeMissingError iff a required attribute is None, and otherwise is the DDL text of
     model's kind."""
     properties = ('C03', 'C04', 'C16', 'C17', 'C10')
-    params = {'cls': _DefaultSQLRenderer, 'model': 'Union[Column,Index,EnumItem,Expression]'}
+    params = {'cls': _DefaultSQLRenderer, 'model': 'Union[Column,Index,EnumItem,Expression,Note]'}
     pure = True
     ret = 'str'
 
@@ -642,6 +648,8 @@ class sql_render:
 
     def raises_AttributeMissingError(cls, model):
         return not required_present(model)
+
+    assume_at_call = ('ensures_expression',)
 
     def returns(cls, model):
         return rendered_sql(model)
@@ -658,6 +666,11 @@ class sql_render:
     def ensures_expression(cls, model, result):
         return not isinstance(model, Expression) or result == '(' + model.text + ')'
 
+    def ensures_table_note(cls, model, result):
+        # a table's note is a COMMENT ON TABLE addressing the qualified table (C03)
+        return not (isinstance(model, Note) and bool(model.text) and isinstance(model.parent, Table)) \
+            or result == sql_table_note(model.parent)
+
 
 def inline_refs_here(t):
     """the inline, non many-to-many references whose key-holding table is t (C04: an inline
@@ -672,6 +685,27 @@ def ref_renderable(r):
             and cols_named(r.col1) and cols_named(r.col2) and all_attached(r)
             and r.col1[0].table.name is not None and r.col1[0].table.schema is not None
             and r.col2[0].table.name is not None and r.col2[0].table.schema is not None)
+
+
+@abstract('str')
+def the_table_body(t):
+    """result of create_body(t) (its meaning is create_body's own postcondition)"""
+    from pydbml.renderer.sql.default.table import create_body as f
+    return f(t)
+
+
+@abstract('str')
+def the_table_statements(t):
+    """result of create_components(t)"""
+    from pydbml.renderer.sql.default.table import create_components as f
+    return f(t)
+
+
+@abstract('str')
+def the_column_comments(t):
+    """result of render_column_notes(t)"""
+    from pydbml.renderer.sql.default.table import render_column_notes as f
+    return f(t)
 
 
 def sql_table_body(t):
@@ -704,7 +738,61 @@ class create_body:
         return elements_renderable(model) and all(c.name is not None for c in model.columns)
 
     def returns(model):
-        return sql_table_body(model)
+        return the_table_body(model)
 
     def ensures_body(model, result):
         return result == sql_table_body(model)
+
+
+def sql_table_components(t):
+    parts = [sql_comment(t.comment)] if t.comment else []
+    parts.append('CREATE TABLE ' + sql_name(t) + ' (')
+    parts.append(the_table_body(t))
+    parts.append(');')
+    parts.extend('\n' + rendered_sql(i) for i in t.indexes if not i.pk)
+    return '\n'.join(parts)
+
+
+@contract('pydbml.renderer.sql.default.table:create_components')
+class create_components:
+    """CREATE TABLE <qualified> ( body ); followed by one statement per non-pk index."""
+    properties = ('C03', 'C10')
+    params = {'model': 'Table'}
+    pure = True
+    ret = 'str'
+
+    def requires_renderable(model):
+        return (model.name is not None and model.schema is not None and elements_renderable(model)
+                and all(c.name is not None for c in model.columns))
+
+    def returns(model):
+        return the_table_statements(model)
+
+    def ensures_statements(model, result):
+        return result == sql_table_components(model)
+
+
+def sql_table(t):
+    return (the_table_statements(t)
+            + (('\n\n' + rendered_sql(t.note)) if t.note.text else '')
+            + the_column_comments(t))
+
+
+@contract('pydbml.renderer.sql.default.table:render_table')
+class render_table:
+    """The table's statements, then COMMENT ON TABLE iff it has a note, then the column comments —
+    all addressing the same qualified table (C03)."""
+    properties = ('C03', 'C10')
+    params = {'model': 'Table'}
+    pure = True
+    ret = 'str'
+
+    def requires_renderable(model):
+        return (model.name is not None and model.schema is not None and elements_renderable(model)
+                and columns_ok(model) and model.note.parent is model)
+
+    def returns(model):
+        return rendered_sql(model)
+
+    def ensures_ddl(model, result):
+        return result == sql_table(model)
